@@ -1,5 +1,6 @@
 import SnaxVerif.Lemmas.SchedWF
 import SnaxVerif.Lemmas.SchedFromMap
+import SnaxVerif.Lemmas.Fuel
 /-!
 # C03 — scheduling preserves the iteration space
 
@@ -30,6 +31,19 @@ theorem addDim_image_eq (s : Schedule) : imageS (addDim s) = imageS s := addDim_
 /-- Dropping the dimensions of extent 1 (`clear_unused_dims()`) does not change the visited tuples. -/
 theorem clearUnused_image_eq (s : Schedule) : imageS (clearUnused s) = imageS s :=
   maskSched_image (· != 1) (by intro b hb; simpa using hb) s
+
+/-- `clear_unused_dims(bounds)` with custom bounds: the result visits exactly the tuples of the schedule whose
+box was replaced by the custom bounds (the dropped dims have custom extent 1). -/
+theorem clearUnusedWith_image_eq (c : List Nat) (s r : Schedule) (h : clearUnusedWith c s = .ok r) :
+    imageS r = imageS { s with bounds := c } := by
+  unfold clearUnusedWith at h
+  split at h
+  · cases h
+  · split at h
+    · cases h
+    · simp only [Except.ok.injEq] at h
+      subst h
+      exact maskSched_image (· != 1) (by intro b hb; simpa using hb) { s with bounds := c }
 
 /-- `canonicalize()` (drop dims with bound == 1, as in the repaired /repo) does not change the visited tuples. -/
 theorem canonicalize_image_eq (s : Schedule) : imageS (canonicalize s) = imageS s := by
@@ -64,6 +78,50 @@ constructor accepts (all bounds strictly positive, one matrix column per bound) 
 zero-extent dimension never reaches `canonicalize` / `tile_dim` / the scheduler. -/
 theorem constructed_is_wf (bounds : List Int) (ops : List Operand) (s : Schedule)
     (h : construct bounds ops = .ok s) : WF s := construct_wf h
+
+/-- `AutoflowScheduler` (the `dart-scheduler` pass on one operation: `canonicalize`, then the first schedule the
+search yields under both default constraints): the emitted schedule is well-formed and visits a permutation
+of the operation's own operand-index tuples; if the search is empty nothing is emitted (`.ok none`). -/
+theorem C03_autoflow (sizes : List Nat) (tmpl : Template) (fuel : Nat) (s r : Schedule) (hwf : WF s)
+    (h : autoflow sizes tmpl fuel s = .ok (some r)) : WF r ∧ (imageS r).Perm (imageS s) := by
+  unfold autoflow at h
+  split at h
+  · cases h
+  · next rs hb =>
+    simp only [Except.ok.injEq] at h
+    have hmem : r ∈ rs := List.mem_of_mem_head? h
+    have := C03_backtrack matchesQ _ tmpl fuel (canonicalize s) 1 rs (WF_maskSched hwf) hb r hmem
+    rw [canonicalize_image_eq s] at this
+    exact this
+
+/-! ### the fuel of the model is adequate and irrelevant (the Python recursion has none) -/
+
+/-- With fuel above `(n + 1 - k) + (template dims + 1 - k)` the model of `scheduler_backtrack` never runs out of
+fuel, for any matcher that does not itself report `outOfFuel`, any checks, template and schedule: each recursive
+call handles one more level, and a tiling (the only way the schedule grows) needs a bounded template dim. -/
+theorem backtrack_fuel_adequate (mtch : Template → Schedule → Except Err Bool)
+    (checks : List (Template → Schedule → Bool)) (tmpl : Template)
+    (hm : ∀ t x, mtch t x ≠ .error .outOfFuel) (fuel : Nat) (s : Schedule) (k : Nat)
+    (h : depthBound tmpl s k < fuel) : backtrack mtch checks tmpl fuel s k ≠ .error .outOfFuel :=
+  backtrack_no_oof hm fuel s k h
+
+/-- for the exact matcher and the start level 1: `n + template dims + 1` is enough -/
+theorem backtrack_fuel_adequate_real (checks : List (Template → Schedule → Bool)) (tmpl : Template) (s : Schedule) :
+    backtrack matchesQ checks tmpl (s.n + tmpl.n + 1) s 1 ≠ .error .outOfFuel :=
+  backtrack_no_oof matchesQ_no_oof _ s 1 (by unfold depthBound; omega)
+
+/-- More fuel never changes an answer: the result list is THE list the unfuelled recursion produces. -/
+theorem backtrack_fuel_irrelevant (mtch : Template → Schedule → Except Err Bool)
+    (checks : List (Template → Schedule → Bool)) (tmpl : Template) (f f' : Nat) (s : Schedule) (k : Nat)
+    (rs rs' : List Schedule) (h : backtrack mtch checks tmpl f s k = .ok rs)
+    (h' : backtrack mtch checks tmpl f' s k = .ok rs') : rs = rs' := by
+  rcases Nat.le_total f f' with hle | hle
+  · have := backtrack_mono_le hle s k rs h
+    rw [this] at h'
+    exact Except.ok.inj h'
+  · have := backtrack_mono_le hle s k rs' h'
+    rw [this] at h
+    exact (Except.ok.inj h).symm
 
 /-! ### construction path AffineMap -> (A, b) (`AffineTransform.from_affine_map`, model `AT.fromMap`) -/
 
